@@ -90,11 +90,13 @@ type Op struct {
 	MaxPkt    *uint32 `json:",omitempty"`
 	AuthMethod *string `json:",omitempty"`
 	AuthData  []byte  `json:",omitempty"`
+	AuthReply []byte  `json:",omitempty"` // connect: answer to the broker's AUTH(continue); reauth: data sent
 	ReqProblem *byte  `json:",omitempty"`
 	Ack       string  `json:",omitempty"` // ack policy for this connection: ""/prompt, never, late, reconly, norel, err
 	AckDelay  Dur     `json:",omitempty"`
 	ClientID  *string `json:",omitempty"` // override client id (e.g. empty id)
 	Transport string  `json:",omitempty"` // "" tcp | "ws"
+	StayOpen  bool    `json:",omitempty"` // do not close the connection after a failing CONNACK
 
 	// subscribe / unsubscribe
 	Subs    []mqttc.Sub `json:",omitempty"`
@@ -134,6 +136,7 @@ type Op struct {
 	Node   int    `json:",omitempty"` // broker node (federation)
 	Custom string `json:",omitempty"` // api_custom: name of a registered function
 
+	PreConnect bool `json:",omitempty"` // send although the connection has no successful CONNACK
 	NoWait bool `json:",omitempty"` // do not wait for completion before the actor's next op
 	Delay  Dur  `json:",omitempty"` // delay before issuing once eligible
 	StallCap int `json:",omitempty"` // stall: outbound buffer bound
